@@ -124,10 +124,9 @@ def run_impl(case, mode):
     try:
         ci = U @ perm
         back = copy.deepcopy(out)
-        if case['rkind'] == 'blockdiag':
-            _, _, _, back = back.transform(ci.T.conj())
-        else:
-            _, _, _, back = back.transform(ci.T.conj(), low, upp)
+        # always with the reported factors: without them the second call chooses its own pivoting and returns the
+        # state in once more permuted orbitals (correct, but not the input)
+        _, _, _, back = back.transform(ci.T.conj(), low, upp)
         res['back_err'] = float((back - wfn).norm())
     except Exception as e:  # noqa
         res['back_exc'] = type(e).__name__ + ':' + str(e)[:100]
